@@ -5,6 +5,7 @@ mod common;
 mod nc;
 mod rn;
 mod tp;
+mod tpmax;
 
 use common::*;
 use std::collections::{BTreeMap, HashSet};
@@ -64,6 +65,7 @@ fn all_profiles() -> Vec<Profile> {
     let mut v = rn::profiles();
     v.extend(nc::profiles());
     v.extend(tp::profiles());
+    v.extend(tpmax::profiles());
     v
 }
 
@@ -71,6 +73,7 @@ fn all_oracles() -> Vec<Oracle> {
     let mut v = rn::oracles();
     v.extend(nc::oracles());
     v.extend(tp::oracles());
+    v.extend(tpmax::oracles());
     v
 }
 
@@ -216,7 +219,10 @@ fn run(args: &Args) {
         }));
     }
     for h in handles {
-        let _ = h.join();
+        if h.join().is_err() {
+            // a generator or the harness itself unwound: the work of that thread is lost, so the run proves nothing
+            *infra_err.lock().unwrap() = Some("a harness worker thread panicked (script generator bug?)".to_string());
+        }
     }
     if let Some(e) = infra_err.lock().unwrap().clone() {
         eprintln!("INFRASTRUCTURE ERROR: {}", e);
